@@ -71,6 +71,34 @@ theorem exact_lines (init : St) (ops : List Op) (lines : List Str)
     have := hc l hl b hb
     exact ⟨⟨this.1, this.2.1⟩, this.2.2⟩
 
+/-- **Field level — a header NAME cannot smuggle another field**: when `finish` does not raise, the block is the
+status line followed by one line per (name, value) of the final header map; every name is an RFC 9110 token, and a
+strict client that takes the text before the FIRST colon of a line as the field name (and demands a token) reads
+back exactly those (name, `" " ++ value`) pairs, in order — so `set_header("Set-Cookie: a=b; x", "v")` or
+`set_header("X Y", "v")` can only end in an exception, never in a line that is attributed to another field. -/
+theorem fields_exact (init : St) (ops : List Op) (lines : List Str)
+    (h : (response init ops).2 = .ok lines) :
+    ∃ hdrs : List (Str × Str), lines = statusLine (finishPrep (run init ops).1).code (finishPrep (run init ops).1).reason
+        :: hdrs.map headerLine ∧
+      (∀ p ∈ hdrs, isToken p.1 = true) ∧
+      lines.tail.mapM Spec.parseField = some (hdrs.map (fun p => (p.1, 32 :: p.2))) := by
+  simp only [response, responseG, finishG] at h
+  split at h
+  · cases h
+  · rename_i cs hcs
+    have hl := (writeHeadersG_ok h).1
+    have hn := writeHeadersG_names h
+    refine ⟨_, hl, hn, ?_⟩
+    rw [hl]
+    exact parseFields_lines _ hn
+
+/-- a colon (or a space) in a header name: accepted by `set_header` (nothing validates the name at call time),
+rejected by the name check of `write_headers` — nothing is written -/
+example : (response (initSt [83] [84] [68]) [.setHeader (ofAscii "X: y") (.str [118])])
+    = ([none], .error .valueError) := by rfl
+example : (response (initSt [83] [84] [68]) [.setHeader (ofAscii "X Y") (.str [118])])
+    = ([none], .error .valueError) := by rfl
+
 /-- NUL occurs nowhere in the bytes handed to the stream -/
 theorem nul_not_in_wire (init : St) (ops : List Op) (lines : List Str)
     (h : (response init ops).2 = .ok lines) : 0 ∉ wire lines := by
@@ -135,6 +163,39 @@ theorem set_header_stores (st st' : St) (n s : Str) (h : setHeader st n (.str s)
 
 example : (setHeader (initSt [83] [84] [68]) [120, 45, 97] (.str [118])).2 = none := by rfl
 
+/-- the same for every kind of value (str, bytes, int): what `set_header` stores is the text
+`_convert_header_value` produced (for str and bytes that is the argument itself: `convert_str_clean`,
+`convert_bytes_clean`), and it is the only value under the normalised name -/
+theorem set_header_stores_any (st st' : St) (n : Str) (v : HVal) (h : setHeader st n v = (st', none)) :
+    ∃ s, convert v = .ok s ∧ (normalize n, s) ∈ hAll st'.headers ∧
+      ∀ w, (normalize n, w) ∈ hAll st'.headers → w = s := by
+  simp only [setHeader] at h
+  split at h
+  · rename_i t ht
+    injection h with h1 _
+    subst h1
+    exact ⟨t, ht, hSet_mem _ _ _, fun w hw => hSet_only _ _ _ _ hw⟩
+  · cases h
+
+/-- `add_header(name, value)` that returns: the name is a token, the converted value is a valid field value,
+the pair (normalised name, value) is in the header map afterwards, and every pair that was there before still
+is (nothing is replaced or dropped) -/
+theorem add_header_stores (st st' : St) (n : Str) (v : HVal) (h : addHeader st n v = (st', none)) :
+    ∃ s, convert v = .ok s ∧ (normalize n, s) ∈ hAll st'.headers ∧
+      (∀ q ∈ hAll st.headers, q ∈ hAll st'.headers) := by
+  simp only [addHeader] at h
+  split at h
+  · cases h
+  · rename_i s hs
+    split at h
+    · rename_i h' hk
+      injection h with h1 _
+      subst h1
+      exact ⟨s, hs, (hAdd_mem hk).1, (hAdd_mem hk).2⟩
+    · cases h
+
+example : (addHeader (initSt [83] [84] [68]) [120, 45, 97] (.bytes [118])).2 = none := by rfl
+
 /-- `set_status(code, reason)`: the stored reason never contains CR, LF, NUL or `<`; it is either the
 given phrase or "Unknown" -/
 theorem checkReason_clean (r : Str) :
@@ -188,20 +249,174 @@ theorem redirect_location_clean (st st' : St) (url : Str) (perm : Bool)
 example : (step (initSt [83] [84] [68]) (.redirect (.str [47, 233]) false)).2 = none := by rfl
 example : (step (initSt [83] [84] [68]) (.redirect (.str [47, 10, 88]) false)).2 = some .valueError := by rfl
 
+/-! ### the first line of defence at run level: what reaches `write_headers` from a `RequestHandler` -/
+
+/-- **Every header VALUE a `RequestHandler` hands to `write_headers` is already free of CR, LF and NUL** — for
+every call sequence (str / bytes / int values through `set_header` / `add_header`, `redirect`, the `Content-Length`
+of `finish`, the `Set-Cookie` lines of `flush`), provided the initial values are (they are literals / settings).
+This is what the call-time checks (`_convert_header_value`, `HTTPHeaders.add`) achieve on their own, without the
+guard of `write_headers`; it links `convert_*_clean` to the block that is serialised. -/
+theorem handler_values_clean (init : St) (ops : List Op) (hv : ValsOk init.headers) (cs : List Str)
+    (hcs : C25.flushCookies (finishPrep (run init ops).1).jar = .ok cs) :
+    ∀ p ∈ hAll (addCookieLines (finishPrep (run init ops).1).headers cs), ∀ c ∈ p.2, c ≠ 13 ∧ c ≠ 10 ∧ c ≠ 0 := by
+  have h1 := valsOk_addCookieLines (valsOk_finishPrep (valsOk_run ops hv)) (flushCookies_valid hcs)
+  intro p hp
+  simp only [hAll, List.mem_flatMap, List.mem_map] at hp
+  obtain ⟨q, hq, v, hvq, rfl⟩ := hp
+  exact valid_no_ctl (h1 q hq v hvq)
+
+example : ValsOk (initSt (ofAscii "S/1") (ofAscii "text/html") (ofAscii "Thu")).headers := by
+  simp only [initSt]
+  exact valsOk_hSet _ (valsOk_hSet _ (valsOk_hSet _ (fun _ hp => by cases hp) (by decide)) (by decide)) (by decide)
+
+def ReasonOk (r : Str) : Prop := ∀ c ∈ r, c ≠ 13 ∧ c ≠ 10 ∧ c ≠ 0
+
+theorem stdReason_ok (code : Int) : ReasonOk (stdReason code) := by
+  unfold stdReason
+  repeat' split
+  all_goals (intro c hc; simp [ofAscii, sUnknown] at hc; omega)
+
+theorem setHeader_reason (st : St) (n : Str) (v : HVal) : (setHeader st n v).1.reason = st.reason := by
+  simp only [setHeader]
+  split <;> rfl
+
+theorem step_reasonOk {st : St} (op : Op) (hr : ReasonOk st.reason) : ReasonOk (step st op).1.reason := by
+  cases op with
+  | setHeader n v => rw [show (step st (.setHeader n v)) = setHeader st n v from rfl, setHeader_reason]; exact hr
+  | addHeader n v =>
+    simp only [step, addHeader]
+    split
+    · exact hr
+    · split <;> exact hr
+  | clearHeader n => exact hr
+  | setStatus c r =>
+    simp only [step, setStatus]
+    cases r with
+    | none => exact stdReason_ok c
+    | some r => intro c hc; have := (checkReason_clean r).2 c hc; omega
+  | setCookie a => exact hr
+  | redirect url perm =>
+    simp only [step]
+    split
+    · exact stdReason_ok _
+    · rw [setHeader_reason]; exact stdReason_ok _
+
+/-- **The reason phrase a `RequestHandler` hands to `write_headers` is free of CR, LF and NUL**, whatever the
+calls (`set_status(code, reason)` with any str, `redirect`) -/
+theorem handler_reason_clean (init : St) (ops : List Op) (hr : ReasonOk init.reason) :
+    ReasonOk (finishPrep (run init ops).1).reason := by
+  have : ReasonOk (run init ops).1.reason := by
+    induction ops generalizing init with
+    | nil => exact hr
+    | cons op rest ih => exact ih _ (step_reasonOk op hr)
+  simp only [finishPrep]
+  split
+  · exact this
+  · split <;> exact this
+
+theorem handler_values_valid (init : St) (ops : List Op) (hv : ValsOk init.headers) (cs : List Str)
+    (hcs : C25.flushCookies (finishPrep (run init ops).1).jar = .ok cs) :
+    ∀ p ∈ hAll (addCookieLines (finishPrep (run init ops).1).headers cs), validHeaderChars p.2 = true := by
+  have h1 := valsOk_addCookieLines (valsOk_finishPrep (valsOk_run ops hv)) (flushCookies_valid hcs)
+  intro p hp
+  simp only [hAll, List.mem_flatMap, List.mem_map] at hp
+  obtain ⟨q, hq, v, hvq, rfl⟩ := hp
+  exact h1 q hq v hvq
+
+theorem utf8Enc1_no_ctl {c : Nat} (hc : c ≠ 13 ∧ c ≠ 10 ∧ c ≠ 0) : ∀ b ∈ utf8Enc1 c, b ≠ 13 ∧ b ≠ 10 ∧ b ≠ 0 := by
+  intro b hb
+  unfold utf8Enc1 at hb
+  split at hb
+  · simp at hb; omega
+  · split at hb
+    · simp at hb; omega
+    · split at hb
+      · simp at hb; omega
+      · simp at hb; omega
+
+theorem statusLine_no_ctl (code : Int) {reason : Str} (hr : ReasonOk reason) :
+    ∀ b ∈ statusLine code reason, b ≠ 13 ∧ b ≠ 10 ∧ b ≠ 0 := by
+  have hpre : ∀ x ∈ ofAscii "HTTP/1.1 ", x ≠ 13 ∧ x ≠ 10 ∧ x ≠ 0 := by decide
+  intro b hb
+  simp only [statusLine, List.mem_append, List.mem_cons, List.mem_flatMap] at hb
+  rcases hb with (hb | hb) | rfl | ⟨c, hc, hb⟩
+  · exact hpre b hb
+  · exact valid_no_ctl (decOfInt_valid code) b hb
+  · omega
+  · exact utf8Enc1_no_ctl (hr c hc) b hb
+
+theorem isTchar_no_ctl {c : Nat} (h : isTchar c = true) : c ≠ 13 ∧ c ≠ 10 ∧ c ≠ 0 ∧ c < 128 := by
+  simp only [isTchar, C25.isAlnum, Bool.or_eq_true, Bool.and_eq_true, decide_eq_true_eq, beq_iff_eq] at h
+  omega
+
+/-- **On the `RequestHandler` path the guards of `write_headers` can fire only because of a header NAME**: if the
+cookie loop of `flush` succeeded and every name in the final header map is a token, `finish()` does not raise —
+values and reason were already made safe by the call-time checks (`handler_values_valid`,
+`handler_reason_clean`).  Together with `fields_exact`: `finish()` raises in `write_headers` exactly when some
+name passed to `set_header` is not a token. -/
+theorem handler_guard_only_names (init : St) (ops : List Op) (hv : ValsOk init.headers) (hr : ReasonOk init.reason)
+    (cs : List Str) (hcs : C25.flushCookies (finishPrep (run init ops).1).jar = .ok cs)
+    (hn : ∀ p ∈ hAll (addCookieLines (finishPrep (run init ops).1).headers cs), isToken p.1 = true) :
+    ∃ lines, (response init ops).2 = .ok lines := by
+  have hvals := handler_values_valid init ops hv cs hcs
+  have hreason := handler_reason_clean init ops hr
+  obtain ⟨H, hH⟩ : ∃ H, H = addCookieLines (finishPrep (run init ops).1).headers cs := ⟨_, rfl⟩
+  rw [← hH] at hvals hn
+  have hline : ∀ p ∈ hAll H, ∀ b ∈ headerLine p, (b ≠ 13 ∧ b ≠ 10 ∧ b ≠ 0) ∧ b < 256 := by
+    intro p hp b hb
+    simp only [headerLine, List.mem_append, List.mem_cons] at hb
+    have htok := hn p hp
+    simp only [isToken, Bool.and_eq_true, List.all_eq_true] at htok
+    rcases hb with hb | rfl | rfl | hb
+    · have := isTchar_no_ctl (htok.2 b hb); omega
+    · omega
+    · omega
+    · have h1 := valid_no_ctl (hvals p hp) b hb
+      have h2 := List.all_eq_true.mp (hvals p hp) b hb
+      simp only [isValidHeaderChar, Bool.or_eq_true, beq_iff_eq, Bool.and_eq_true, decide_eq_true_eq] at h2
+      omega
+  have hlat : ((hAll H).map headerLine).all latin1Ok = true := by
+    simp only [List.all_eq_true, List.mem_map, latin1Ok, decide_eq_true_eq]
+    rintro l ⟨p, hp, rfl⟩ b hb
+    exact (hline p hp b hb).2
+  have hok : ∀ l : Str, (∀ b ∈ l, b ≠ 13 ∧ b ≠ 10 ∧ b ≠ 0) → lineOkG forbiddenByte l = true := by
+    intro l hl
+    simp only [lineOkG, Bool.not_eq_true', List.any_eq_false, forbiddenByte, Bool.or_eq_true, beq_iff_eq, not_or]
+    intro b hb
+    have := hl b hb
+    exact ⟨⟨this.1, this.2.1⟩, this.2.2⟩
+  have hguard : (statusLine (finishPrep (run init ops).1).code (finishPrep (run init ops).1).reason ::
+      (hAll H).map headerLine).all (lineOkG forbiddenByte) = true := by
+    simp only [List.all_cons, Bool.and_eq_true, List.all_eq_true, List.mem_map]
+    refine ⟨hok _ (statusLine_no_ctl _ hreason), ?_⟩
+    rintro l ⟨p, hp, rfl⟩
+    exact hok _ (fun b hb => (hline p hp b hb).1)
+  have hnames : (hAll H).all (fun p => isToken p.1) = true := List.all_eq_true.mpr hn
+  refine ⟨statusLine (finishPrep (run init ops).1).code (finishPrep (run init ops).1).reason ::
+    (hAll H).map headerLine, ?_⟩
+  simp only [response, responseG, finishG, hcs, ← hH, writeHeadersG, hlat, hguard, hnames]
+  rfl
+
+example : ReasonOk (initSt [83] [84] [68]).reason := by unfold ReasonOk; decide
+example : ∀ p ∈ hAll (initSt [83] [84] [68]).headers, isToken p.1 = true := by decide
+
 /-! ### D9: the guard as found (`CR_OR_LF_RE`) lets NUL in a header name through -/
 
-/-- the statement of `no_ctl_on_wire` for the guard of the tree as found -/
+/-- the statement "no CR, LF, NUL on the wire" for the guard of the tree as found (`CR_OR_LF_RE`), over the
+connection-level API.  (Stated over `responseG` until the header-name `fix:` commit: the witness then was
+`set_header("A\x00B", "v")`; a NUL in a NAME is now also stopped by the token check of `write_headers`, but a NUL
+in a VALUE stored with `h[name] = value` is stopped by nothing except the byte guard.) -/
 def no_ctl_on_wire_old_guard_full : Prop :=
-  ∀ (init : St) (ops : List Op) (lines : List Str), (responseG forbiddenByteOld init ops).2 = .ok lines →
+  ∀ (code : Int) (reason : Str) (hops : List HOp) (lines : List Str),
+    (rawResponseG forbiddenByteOld code reason hops).2 = .ok lines →
     ∀ l ∈ lines, ∀ b ∈ l, b ≠ 13 ∧ b ≠ 10 ∧ b ≠ 0
 
-/-- `set_header("A\x00B", "v")` reaches the wire with the old guard: the full statement is false for it
+/-- `h["X-A"] = "a\x00b"` reaches the wire with the old guard: the full statement is false for it
 (this is defect D9; the `fix:` commit extends the guard, and `no_ctl_on_wire` above is about the fixed guard) -/
 theorem old_guard_lets_nul_through : ¬ no_ctl_on_wire_old_guard_full := by
   intro h
-  have := h (initSt [83] [84] [68]) [.setHeader [65, 0, 66] (.str [118])]
-    [ofAscii "HTTP/1.1 200 OK", ofAscii "Server: S", ofAscii "Content-Type: T", ofAscii "Date: D",
-     [65, 0, 98, 58, 32, 118], ofAscii "Content-Length: 0"] rfl [65, 0, 98, 58, 32, 118] (by simp) 0 (by simp)
+  have := h 200 (ofAscii "OK") [.set [88, 45, 65] [97, 0, 98]]
+    [ofAscii "HTTP/1.1 200 OK", [88, 45, 65, 58, 32, 97, 0, 98]] rfl [88, 45, 65, 58, 32, 97, 0, 98] (by simp) 0 (by simp)
   exact this.2.2 rfl
 
 /-- CR and LF are stopped by the old guard as well (what it was written for) -/
@@ -265,6 +480,20 @@ theorem raw_exact_lines (code : Int) (reason : Str) (hops : List HOp) (lines : L
   have hw := writeHeadersRawG_ok (show writeHeadersRawG forbiddenByte code reason (hRun [] hops).1 = .ok lines from h)
   exact ⟨(writeHeadersG_ok hw).1, (wh_exact hw).1, (wh_exact hw).2, wh_no_ctl hw⟩
 
+/-- field level for the connection-level API: `h["X: y"] = "v"` is accepted by `HTTPHeaders` but the response
+is rejected by `write_headers`; an accepted block reads back as exactly the (name, value) pairs of the map -/
+theorem raw_fields_exact (code : Int) (reason : Str) (hops : List HOp) (lines : List Str)
+    (h : (rawResponse code reason hops).2 = .ok lines) :
+    (∀ p ∈ hAll (hRun [] hops).1, isToken p.1 = true) ∧
+    lines.tail.mapM Spec.parseField = some ((hAll (hRun [] hops).1).map (fun p => (p.1, 32 :: p.2))) := by
+  have hw := writeHeadersRawG_ok (show writeHeadersRawG forbiddenByte code reason (hRun [] hops).1 = .ok lines from h)
+  have hn := writeHeadersG_names hw
+  refine ⟨hn, ?_⟩
+  rw [(writeHeadersG_ok hw).1]
+  exact parseFields_lines _ hn
+
+example : rawResponse 200 (ofAscii "OK") [.set (ofAscii "Set-Cookie: a=b; x") [118]] = ([none], .error .valueError) := by rfl
+
 /-- the same for a WSGI application behind `WSGIContainer` (status string `"<code> <reason>"`, header pairs) -/
 theorem wsgi_exact_lines (server ctype : Str) (code : Int) (reason : Str) (hs : List (Str × Str)) (lines : List Str)
     (h : wsgiResponse server ctype code reason hs = .ok lines) :
@@ -275,6 +504,21 @@ theorem wsgi_exact_lines (server ctype : Str) (code : Int) (reason : Str) (hs : 
   · cases h
   · have hw := writeHeadersRawG_ok h
     exact ⟨(wh_exact hw).1, (wh_exact hw).2, wh_no_ctl hw⟩
+
+/-- field level for WSGI: every line after the start line of an accepted response is `token ":" SP value` -/
+theorem wsgi_fields_exact (server ctype : Str) (code : Int) (reason : Str) (hs : List (Str × Str)) (lines : List Str)
+    (h : wsgiResponse server ctype code reason hs = .ok lines) :
+    ∃ hdrs : List (Str × Str), lines = statusLine code reason :: hdrs.map headerLine ∧
+      (∀ p ∈ hdrs, isToken p.1 = true) ∧
+      lines.tail.mapM Spec.parseField = some (hdrs.map (fun p => (p.1, 32 :: p.2))) := by
+  simp only [wsgiResponse, wsgiResponseG] at h
+  split at h
+  · cases h
+  · have hw := writeHeadersRawG_ok h
+    have hn := writeHeadersG_names hw
+    refine ⟨_, (writeHeadersG_ok hw).1, hn, ?_⟩
+    rw [(writeHeadersG_ok hw).1]
+    exact parseFields_lines _ hn
 
 /-- an accepted start line carries the reason's UTF-8 bytes, so an accepted reason has no CR, LF, NUL -/
 theorem raw_reason_clean (code : Int) (reason : Str) (hops : List HOp) (lines : List Str)
